@@ -155,6 +155,11 @@ class ScriptedParallelEnv(ParallelEnv):
         self.t = 0
         self.nsteps = 0
         self.nresets = 0
+        # cfg["rng_salt"]: an environment with its own random stream. reset(seed=s) re-seeds it, every reset (seeded or
+        # not) draws the episode's "salt" from it; the salt enters the rewards. An independent environment that was seeded
+        # once goes on in its stream at every later (un-seeded) reset.
+        self._rng = np.random.default_rng(1000003 * int(self.seed_code) + int(self.env_id))
+        self.salt = 0
 
     # ------------------------------------------------------------ spaces
     def observation_space(self, agent):
@@ -231,7 +236,7 @@ class ScriptedParallelEnv(ParallelEnv):
         return (encode_leaf(fields, 0, img, dt), encode_leaf(fields, 1, vec, dt2))
 
     def _reward(self, ai: int, act: int):
-        r = ((self.seed_code * 7 + self.env_id * 31 + ai * 17 + self.episode * 13 + self.t * 3 + act) % 1000) / 8.0
+        r = ((self.seed_code * 7 + self.env_id * 31 + ai * 17 + self.episode * 13 + self.t * 3 + act + 41 * self.salt) % 1000) / 8.0
         if ai == 1:
             return np.float32(r)
         return float(r)
@@ -271,6 +276,10 @@ class ScriptedParallelEnv(ParallelEnv):
         self.episode += 1
         self.nresets += 1
         self.t = 0
+        if self.cfg.get("rng_salt"):
+            if seed is not None:
+                self._rng = np.random.default_rng(int(seed))
+            self.salt = int(self._rng.integers(0, 97))
         self.agents = self.possible_agents[:]
         obs = {a: self._obs(i, 0) for i, a in enumerate(self.possible_agents)}
         infos = {}
